@@ -555,6 +555,11 @@ class MultiVector:
                     new_data[bits] = new_coeff
 
             data = new_data
+        else:
+            # data is in bitmap form: zero coefficients do not belong there
+            # (__bool__, __eq__ and __hash__ rely on their absence)
+            data = {bits: coeff for bits, coeff in data.items()
+                    if not is_zero(coeff)}
 
         # }}}
 
